@@ -79,3 +79,13 @@ func (sk *SpaceKeeper) VerifState() VerifKeeper {
 
 // VerifPlotterMaxChanSize exposes the capacity of the plotter's request channel.
 const VerifPlotterMaxChanSize = plotterMaxChanSize
+
+// VerifGate, when set, is called by the plotter goroutine at the named points of its loop (outside the
+// state lock); the harness blocks in it to decide when the plotter takes its next step.
+var VerifGate func(point, sid string)
+
+func verifGate(point, sid string) {
+	if g := VerifGate; g != nil {
+		g(point, sid)
+	}
+}
